@@ -43,12 +43,12 @@ def run(tier, seed):
         unsat += info["unsat"]
     files = [o for (_, o), i in zip(jobs, infos) if "error" not in i]
     vlib.linear_check(rep, SPEC, CFG, DIAG, files, wd)
-    rep.cov.update({"systems": sat + unsat, "satisfiable": sat, "unsatisfiable": unsat, "solver_runs": 4 * (sat + unsat)})
+    rep.cov.update({"systems": sat + unsat, "satisfiable": sat, "unsatisfiable": unsat, "solver_runs": 5 * (sat + unsat)})
     rep.cov["evaluations"] = sat + unsat
     rep.cov["distinct_nontrivial"] = sat + unsat
     rep.cov["rule"] = ("seeded random systems of 1..10 variables, ranges inside [-16,47] biased to the window edges and to ranks 1..6, parity flags incl. "
                        "contradictory ones, min/max tightenings, 0..25 constraints (<=, >=, =) incl. chains/cycles mirroring the extended proof kernel; "
-                       "each system is solved under all four PrefVal orders; systems are distinct with overwhelming probability (64-bit seeded generator)")
+                       "each system is solved under all four PrefVal orders and once with per-variable mixed orders; systems are distinct with overwhelming probability (64-bit seeded generator)")
     try:
         first = open(files[0]).read().split("\n")[1]
         d = json.loads(first)
